@@ -43,6 +43,11 @@ func init() {
 			return iface{}
 		}
 		externals[T+".WriteRune"] = func(fr *frame, a []value) value {
+			if rs, isSym := a[1].(*sym); isSym {
+				enc := encodeSymbolicRune(rs)
+				appendText(fr, a[0], normStr(enc))
+				return tuple{len(enc), iface{}}
+			}
 			r, ok := a[1].(int32)
 			if !ok {
 				panic(unsupported(T + ".WriteRune of a symbolic rune"))
